@@ -946,9 +946,9 @@ def null_model_dir_sign(W, bin_swaps=5, wei_freq=.1, seed=None):
             Acur = An
             A_rcur = An_r
 
-        Si = np.sum(W * Acur, axis=0)  # positive in-strength
-        So = np.sum(W * Acur, axis=1)  # positive out-strength
-        Wv = np.sort(W[Acur].flat)  # sorted weights vector
+        Si = np.sum(s * W * Acur, axis=0)  # positive in-strength
+        So = np.sum(s * W * Acur, axis=1)  # positive out-strength
+        Wv = np.sort(s * W[Acur])  # sorted weights vector
         i, j = np.where(A_rcur)
         Lij, = np.where(A_rcur.flat)  # weights indices
 
@@ -1073,8 +1073,8 @@ def null_model_und_sign(W, bin_swaps=5, wei_freq=.1, seed=None):
             Acur = An
             A_rcur = An_r
 
-        S = np.sum(W * Acur, axis=0)  # strengths
-        Wv = np.sort(W[np.where(np.triu(Acur))])  # sorted weights vector
+        S = np.sum(s * W * Acur, axis=0)  # strengths
+        Wv = np.sort(s * W[np.where(np.triu(Acur))])  # sorted weights vector
         i, j = np.where(np.triu(A_rcur))
         Lij, = np.where(np.triu(A_rcur).flat)  # weights indices
 
